@@ -38,17 +38,19 @@ def classify_path(eng, st, v):
     return None
 
 
+KF_ALIAS = 'C20/backup/input-named-x.tmp-or-x.bk-is-its-own-temporary-or-backup-file'
+
+
 def build(ctx):
     eng = ctx.engine('lib')
     setup_stubs(eng)
     ctx.bounds = {'files': 'one rewrite (the emitter is a stateless unit struct)', 'fs_operations_per_rewrite': '<= 6',
                   'crash_point': 'symbolic, after any sub-step (write = truncate then fill; rename atomic)',
                   'failing_operation': 'symbolic: any single operation may return Err; a failing write may or may not have truncated its target'}
-    ctx.outside = ['durability (fsync) and other processes', 'multi-file runs (emitter has no state)', 'a source file whose own extension is tmp or bk',
-                   'Path::with_extension itself (F, F.tmp, F.bk assumed to be three distinct paths)']
+    ctx.outside = ['durability (fsync) and other processes', 'multi-file runs (emitter has no state)', 'Path::with_extension itself (a constructor; F.tmp and F.bk coincide with F exactly when F has that extension: both cases are analysed)']
     ctx.assumptions = ['the bytes on disk are an independent value: original_text is only the source-map view of them (no BOM, LF terminators)',
                        'file-system model: write(path,data) = create/truncate then fill; rename(from,to) atomic and replaces the target; a failed rename has no effect',
-                       'F, F.tmp, F.bk are distinct paths']
+                       'F.tmp and F.bk are distinct from each other; either may coincide with F (input named x.tmp / x.bk)', 'rename of a missing source fails']
     name = eng.find('emit_formatted_file', self_ty='FilesWithBackupEmitter', file='src/emitter/files_with_backup.rs')
 
     st = State()
@@ -81,7 +83,7 @@ def build(ctx):
             ctx.prop('p%d/no-panic' % pi, o.state.pc, z3.BoolVal(True), [], None, twin=False)
             continue
         s = o.state
-        ops = []
+        ops = ops0 = []
         for ent in s.trace:
             callee = ent[1]
             m = re.search(r'(?:^|::)(write|rename|copy|remove_file)::<', callee)
@@ -109,81 +111,90 @@ def build(ctx):
                 if a is None or b is None:
                     raise Inconclusive('unrecognised %s paths %r' % (kind, args))
                 ops.append((kind, a, b, ok))
-        # sub-step states
-        files = {'F': T_orig, 'F.tmp': Content.absent, 'F.bk': Content.absent}
-        states = [dict(files)]
-        labels = ['start']
-        extra = []
-        for oi, op in enumerate(ops):
-            if op[0] == 'write':
-                _, tgt, data, ok = op
-                files.setdefault(tgt, Content.absent)
-                trunc = z3.Bool('p%d.op%d.failed_write_truncated' % (pi, oi))
-                files = dict(files)
-                files[tgt] = z3.If(z3.Or(ok, trunc), Content.partial, files[tgt])
-                states.append(dict(files))
-                labels.append('op%d write(%s): truncated' % (oi, tgt))
-                files = dict(files)
-                files[tgt] = z3.If(ok, data, files[tgt])
-                states.append(dict(files))
-                labels.append('op%d write(%s): filled' % (oi, tgt))
-            elif op[0] == 'copy':
-                _, a, b, ok = op
-                files.setdefault(a, Content.absent)
-                files.setdefault(b, Content.absent)
-                trunc = z3.Bool('p%d.op%d.failed_copy_truncated' % (pi, oi))
-                files = dict(files)
-                files[b] = z3.If(z3.Or(ok, trunc), Content.partial, files[b])
-                states.append(dict(files))
-                labels.append('op%d copy(%s -> %s): target truncated' % (oi, a, b))
-                files = dict(files)
-                files[b] = z3.If(ok, files[a], files[b])
-                states.append(dict(files))
-                labels.append('op%d copy(%s -> %s): target filled' % (oi, a, b))
-            elif op[0] == 'remove':
-                _, a, _b, ok = op
-                files.setdefault(a, Content.absent)
-                files = dict(files)
-                files[a] = z3.If(ok, Content.absent, files[a])
-                states.append(dict(files))
-                labels.append('op%d remove(%s)' % (oi, a))
-            else:
-                _, a, b, ok = op
-                files.setdefault(a, Content.absent)
-                files.setdefault(b, Content.absent)
-                nf = dict(files)
-                nf[b] = z3.If(ok, files[a], files[b])
-                nf[a] = z3.If(ok, Content.absent, files[a])
-                files = nf
-                states.append(dict(files))
-                labels.append('op%d rename(%s -> %s)' % (oi, a, b))
-        pc = list(s.pc)
-        all_ok = z3.And([op[3] for op in ops]) if ops else z3.BoolVal(True)
-        desc = '%d ops: %s' % (len(ops), '; '.join('%s %s' % (op[0], op[1] if op[0] in ('write', 'remove') else op[1] + '->' + op[2]) for op in ops))
-        ctx.samples.append({'path': pi, 'effect_trace': desc, 'substeps': labels})
+        for alias in (None, 'F.tmp', 'F.bk'):
+            # alias: the input file is itself called x.tmp / x.bk, so the temporary / backup name the emitter derives IS the input file
+            ops = [tuple(('F' if (alias and x == alias) else x) if isinstance(x, str) and x.startswith('F') else x for x in op) for op in ops0]
+            sfx = '' if alias is None else '[input named like its own %s file]' % alias[2:]
+            kcls = [] if alias is None else [(KF_ALIAS, z3.BoolVal(True))]
+            if alias is not None and not ops:
+                continue
+            # sub-step states
+            files = {'F': T_orig, 'F.tmp': Content.absent, 'F.bk': Content.absent}
+            states = [dict(files)]
+            labels = ['start']
+            extra = []
+            for oi, op in enumerate(ops):
+                if op[0] == 'write':
+                    _, tgt, data, ok = op
+                    files.setdefault(tgt, Content.absent)
+                    trunc = z3.Bool('p%d.op%d.failed_write_truncated' % (pi, oi))
+                    files = dict(files)
+                    files[tgt] = z3.If(z3.Or(ok, trunc), Content.partial, files[tgt])
+                    states.append(dict(files))
+                    labels.append('op%d write(%s): truncated' % (oi, tgt))
+                    files = dict(files)
+                    files[tgt] = z3.If(ok, data, files[tgt])
+                    states.append(dict(files))
+                    labels.append('op%d write(%s): filled' % (oi, tgt))
+                elif op[0] == 'copy':
+                    _, a, b, ok = op
+                    files.setdefault(a, Content.absent)
+                    files.setdefault(b, Content.absent)
+                    trunc = z3.Bool('p%d.op%d.failed_copy_truncated' % (pi, oi))
+                    files = dict(files)
+                    files[b] = z3.If(z3.Or(ok, trunc), Content.partial, files[b])
+                    states.append(dict(files))
+                    labels.append('op%d copy(%s -> %s): target truncated' % (oi, a, b))
+                    files = dict(files)
+                    files[b] = z3.If(ok, files[a], files[b])
+                    states.append(dict(files))
+                    labels.append('op%d copy(%s -> %s): target filled' % (oi, a, b))
+                elif op[0] == 'remove':
+                    _, a, _b, ok = op
+                    files.setdefault(a, Content.absent)
+                    files = dict(files)
+                    files[a] = z3.If(ok, Content.absent, files[a])
+                    states.append(dict(files))
+                    labels.append('op%d remove(%s)' % (oi, a))
+                else:
+                    _, a, b, ok = op
+                    files.setdefault(a, Content.absent)
+                    files.setdefault(b, Content.absent)
+                    nf = dict(files)
+                    nf[b] = z3.If(ok, files[a], files[b])
+                    nf[a] = z3.If(ok, Content.absent, files[a])
+                    files = nf
+                    states.append(dict(files))
+                    labels.append('op%d rename(%s -> %s)' % (oi, a, b))
+            pc = list(s.pc) + extra
+            all_ok = z3.And([op[3] for op in ops]) if ops else z3.BoolVal(True)
+            desc = '%d ops: %s' % (len(ops), '; '.join('%s %s' % (op[0], op[1] if op[0] in ('write', 'remove') else op[1] + '->' + op[2]) for op in ops))
+            ctx.samples.append({'path': pi, 'effect_trace': desc, 'substeps': labels})
 
-        def at_c(fn_of_state):
-            return z3.Or([z3.And(c == t, fn_of_state(stt)) for t, stt in enumerate(states)])
-        rng_c = [c >= 0, c < len(states)]
-        # (a) original recoverable at every instant
-        ctx.prop('p%d/original-recoverable-at-every-crash-point' % pi, pc + rng_c,
-                 at_c(lambda S: z3.Not(z3.Or(S['F'] == T_orig, S['F.bk'] == T_orig))), [c], make_replay(ctx, ops, 'recoverable'), meta={'ops': desc})
-        # (b) F never partial, and only ever original or formatted
-        ctx.prop('p%d/file-is-never-partial' % pi, pc + rng_c,
-                 at_c(lambda S: z3.Not(z3.Or(S['F'] == Content.absent, S['F'] == T_orig, S['F'] == T_fmt))), [c], make_replay(ctx, ops, 'partial'), meta={'ops': desc})
-        # (c) successful complete run
-        final = states[-1]
-        ret_ok = o.value.discr == 0
-        ctx.prop('p%d/success=>file-formatted-and-bk-original' % pi, pc + [ret_ok, orig.e != fmt.e],
-                 z3.Not(z3.And(final['F'] == T_fmt, final['F.bk'] == T_orig, final['F.tmp'] == Content.absent)), [], make_replay(ctx, ops, 'final'), meta={'ops': desc}, twin=False)
-        success_paths.append(z3.And(pc + [ret_ok, orig.e != fmt.e]))
-        # (d) unchanged file: no operation at all (hence no .bk)
-        if ops:
-            ctx.prop('p%d/unchanged-file-untouched' % pi, pc, orig.e == fmt.e, [], make_replay(ctx, ops, 'unchanged'), meta={'ops': desc}, twin=False)
-        else:
-            ctx.prop('p%d/no-op-path-only-when-unchanged' % pi, pc + [ret_ok], orig.e != fmt.e, [], make_replay(ctx, ops, 'nowrite'), meta={'ops': desc})
-        # (e) failures propagate
-        ctx.prop('p%d/io-error-propagates' % pi, pc, z3.And(z3.Not(all_ok), ret_ok), [], make_replay(ctx, ops, 'propagate'), meta={'ops': desc}, twin=False)
+            def at_c(fn_of_state):
+                return z3.Or([z3.And(c == t, fn_of_state(stt)) for t, stt in enumerate(states)])
+            rng_c = [c >= 0, c < len(states)]
+            # (a) original recoverable at every instant
+            ctx.prop('p%d/original-recoverable-at-every-crash-point%s' % (pi, sfx), pc + rng_c,
+                     at_c(lambda S: z3.Not(z3.Or(S['F'] == T_orig, S['F.bk'] == T_orig))), [c], make_replay(ctx, ops, 'recoverable' if alias is None else 'alias'), meta={'ops': desc}, classes=kcls, twin=alias is None)
+            # (b) F never partial, and only ever original or formatted
+            ctx.prop('p%d/file-is-never-partial%s' % (pi, sfx), pc + rng_c,
+                     at_c(lambda S: z3.Not(z3.Or(S['F'] == Content.absent, S['F'] == T_orig, S['F'] == T_fmt))), [c], make_replay(ctx, ops, 'partial' if alias is None else 'alias'), meta={'ops': desc}, classes=kcls, twin=alias is None)
+            if alias is not None:
+                continue
+            # (c) successful complete run
+            final = states[-1]
+            ret_ok = o.value.discr == 0
+            ctx.prop('p%d/success=>file-formatted-and-bk-original' % pi, pc + [ret_ok, orig.e != fmt.e],
+                     z3.Not(z3.And(final['F'] == T_fmt, final['F.bk'] == T_orig, final['F.tmp'] == Content.absent)), [], make_replay(ctx, ops, 'final'), meta={'ops': desc}, twin=False)
+            success_paths.append(z3.And(pc + [ret_ok, orig.e != fmt.e]))
+            # (d) unchanged file: no operation at all (hence no .bk)
+            if ops:
+                ctx.prop('p%d/unchanged-file-untouched' % pi, pc, orig.e == fmt.e, [], make_replay(ctx, ops, 'unchanged'), meta={'ops': desc}, twin=False)
+            else:
+                ctx.prop('p%d/no-op-path-only-when-unchanged' % pi, pc + [ret_ok], orig.e != fmt.e, [], make_replay(ctx, ops, 'nowrite'), meta={'ops': desc})
+            # (e) failures propagate
+            ctx.prop('p%d/io-error-propagates' % pi, pc, z3.And(z3.Not(all_ok), ret_ok), [], make_replay(ctx, ops, 'propagate'), meta={'ops': desc}, twin=False)
         if ops:
             complete_runs += 1
     ctx.cover('cover/complete-rewrite-path-exists', [z3.BoolVal(complete_runs > 0), z3.Or(success_paths)])
@@ -299,8 +310,32 @@ def run_backup(ctx, inject=None, unchanged=False, src=None, only_path=None):
     return res
 
 
+def replay_alias():
+    """`rustfmt --backup` on a file that is itself called x.tmp / x.bk: is the original still somewhere afterwards?"""
+    bins = ensure_bins()
+    findings = []
+    for ext in ('tmp', 'bk'):
+        _seq[0] += 1
+        d = os.path.join(BUILD, 'scratch', 'c20a-%d-%d' % (os.getpid(), _seq[0]))
+        os.makedirs(d, exist_ok=True)
+        src = 'fn   main( ) { let x=1 ; }\n'
+        p = os.path.join(d, 'x.' + ext)
+        open(p, 'w').write(src)
+        r = subprocess.run([os.path.join(bins, 'rustfmt'), '--backup', p], capture_output=True, text=True, env=run_env(), timeout=60)
+        left = {}
+        for fn_ in sorted(os.listdir(d)):
+            left[fn_] = open(os.path.join(d, fn_)).read()
+        if src not in left.values():
+            findings.append('rustfmt --backup x.%s (exit %d): the original is in no file afterwards; files left: %r' % (ext, r.returncode, {k: v[:24] for k, v in left.items()}))
+        shutil.rmtree(d, ignore_errors=True)
+    return findings
+
+
 def make_replay(ctx, ops, what):
     def replay(model, r):
+        if what == 'alias':
+            f = replay_alias()
+            return {'reproduced': bool(f), 'detail': f}
         findings = []
         runs = []
         base = run_backup(ctx)
